@@ -837,3 +837,354 @@ Theorem compiled_inline_argument_names :
 Proof. exact HoistProgram.compiled_inline_argument_names. Qed.
 Print Assumptions compiled_inline_argument_names.
 
+
+(* TextProgram.v *)
+From Pory Require TextProgram.
+Theorem program_text_argument_label :
+  forall (autovars : list (text * autovar)) (switches : list (text * text)) (parse_format : toks -> res (token * text * text * toks)),
+  (forall (ts : toks) (tk : token) (v sty : text) (ts' : toks),
+   parse_format ts = Ok (tk, v, sty, ts') -> forall a : toks, Consume.advs a ts -> Consume.advs a ts') ->
+  forall (T : toks) (p : program),
+  parse_program autovars switches true parse_format T = Ok p ->
+  forall (script : text) (c : cmd),
+  In (script, c) (HoistProgram.named_cmds (tops p)) ->
+  forall (name : token) (k : nat) (tk : token) (v sty : text),
+  TextProgram.written_text switches parse_format T c name k tk v sty ->
+  cname c = tlit name /\
+  ctok c = name /\
+  (exists (st : pstate) (l : text),
+     parse_tops autovars switches true parse_format (5 * length T + 4) pstate0 T = Ok st /\
+     nth_error (cargs c) k = Some l /\ find_text (hset (ph st)) (terminate v sty) sty = Some l).
+Proof. exact TextProgram.program_text_argument_label. Qed.
+Print Assumptions program_text_argument_label.
+
+Theorem program_text_argument :
+  forall (autovars : list (text * autovar)) (switches : list (text * text)) (parse_format : toks -> res (token * text * text * toks)),
+  (forall (ts : toks) (tk : token) (v sty : text) (ts' : toks),
+   parse_format ts = Ok (tk, v, sty, ts') -> forall a : toks, Consume.advs a ts -> Consume.advs a ts') ->
+  forall (T : toks) (p : program),
+  parse_program autovars switches true parse_format T = Ok p ->
+  forall (script : text) (c : cmd),
+  In (script, c) (HoistProgram.named_cmds (tops p)) ->
+  forall (name : token) (k : nat) (tk : token) (v sty : text),
+  TextProgram.written_text switches parse_format T c name k tk v sty ->
+  cname c = tlit name /\
+  ctok c = name /\
+  (exists (l : text) (x : textdef),
+     nth_error (cargs c) k = Some l /\
+     In x (texts p) /\
+     xname x = l /\
+     xvalue x = terminate v sty /\
+     xtype x = sty /\
+     xglob x = false /\
+     (forall y : textdef, In y (texts p) -> xname y = l -> y = x) /\
+     length (filter (fun y : textdef => text_eqb (xname y) l) (texts p)) = 1 /\
+     (forall (optimize : bool) (mp : option text) (out : list Emitter.instr),
+      Emitter.emit_program_instrs optimize mp p = Emitter.Ok out ->
+      exists (a : list Emitter.instr) (n : nat) (pre post : list Emitter.instr),
+        out = a ++ Emitter.emit_texts mp (texts p) n /\
+        Emitter.emit_texts mp (texts p) n = pre ++ Emitter.emit_text mp x ++ post /\
+        filter (HoistProgram.is_label l) (Emitter.emit_texts mp (texts p) n) = [Emitter.ILabel l false]) /\
+     (forall (optimize : bool) (mp : option text) (out : list Emitter.instr),
+      Emitter.emit_program_instrs optimize mp p = Emitter.Ok out -> exists X Y : list Emitter.instr, out = X ++ Emitter.emit_text mp x ++ Y)).
+Proof. exact TextProgram.program_text_argument. Qed.
+Print Assumptions program_text_argument.
+
+Theorem program_text_argument_lines :
+  forall (autovars : list (text * autovar)) (switches : list (text * text)) (parse_format : toks -> res (token * text * text * toks)),
+  (forall (ts : toks) (tk : token) (v sty : text) (ts' : toks),
+   parse_format ts = Ok (tk, v, sty, ts') -> forall a : toks, Consume.advs a ts -> Consume.advs a ts') ->
+  forall (T : toks) (p : program),
+  parse_program autovars switches true parse_format T = Ok p ->
+  forall (script : text) (c : cmd),
+  In (script, c) (HoistProgram.named_cmds (tops p)) ->
+  forall (name : token) (k : nat) (tk : token) (v sty : text),
+  TextProgram.written_text switches parse_format T c name k tk v sty ->
+  exists l : text,
+    nth_error (cargs c) k = Some l /\
+    length (filter (fun y : textdef => text_eqb (xname y) l) (texts p)) = 1 /\
+    (forall (optimize : bool) (out : list Emitter.instr),
+     Emitter.emit_program_instrs optimize None p = Emitter.Ok out ->
+     exists X Y : list Emitter.instr,
+       out =
+       X ++
+       (Emitter.ILabel l false
+        :: map
+             (fun line : text =>
+              Emitter.IData
+                match sty with
+                | [] =>
+                    t
+                      (String.String (Ascii.Ascii true true false false true true true false)
+                         (String.String (Ascii.Ascii false false true false true true true false)
+                            (String.String (Ascii.Ascii false true false false true true true false)
+                               (String.String (Ascii.Ascii true false false true false true true false)
+                                  (String.String (Ascii.Ascii false true true true false true true false)
+                                     (String.String (Ascii.Ascii true true true false false true true false) String.EmptyString))))))
+                | _ :: _ => sty
+                end line) (Emitter.split_nl (terminate v sty) [])) ++ Y).
+Proof. exact TextProgram.program_text_argument_lines. Qed.
+Print Assumptions program_text_argument_lines.
+
+Theorem program_text_arguments_share :
+  forall (autovars : list (text * autovar)) (switches : list (text * text)) (parse_format : toks -> res (token * text * text * toks)),
+  (forall (ts : toks) (tk : token) (v sty : text) (ts' : toks),
+   parse_format ts = Ok (tk, v, sty, ts') -> forall a : toks, Consume.advs a ts -> Consume.advs a ts') ->
+  forall (T : toks) (p : program),
+  parse_program autovars switches true parse_format T = Ok p ->
+  forall (s1 : text) (c1 : cmd) (s2 : text) (c2 : cmd),
+  In (s1, c1) (HoistProgram.named_cmds (tops p)) ->
+  In (s2, c2) (HoistProgram.named_cmds (tops p)) ->
+  forall (n1 : token) (k1 : nat) (tk1 : token) (v1 sty1 : text) (n2 : token) (k2 : nat) (tk2 : token) (v2 sty2 : text),
+  TextProgram.written_text switches parse_format T c1 n1 k1 tk1 v1 sty1 ->
+  TextProgram.written_text switches parse_format T c2 n2 k2 tk2 v2 sty2 ->
+  nth_error (cargs c1) k1 = nth_error (cargs c2) k2 <-> terminate v1 sty1 = terminate v2 sty2 /\ sty1 = sty2.
+Proof. exact TextProgram.program_text_arguments_share. Qed.
+Print Assumptions program_text_arguments_share.
+
+Theorem program_str_argument :
+  forall (autovars : list (text * autovar)) (switches : list (text * text)) (parse_format : toks -> res (token * text * text * toks)),
+  (forall (ts : toks) (tk : token) (v sty : text) (ts' : toks),
+   parse_format ts = Ok (tk, v, sty, ts') -> forall a : toks, Consume.advs a ts -> Consume.advs a ts') ->
+  forall (T : toks) (p : program),
+  parse_program autovars switches true parse_format T = Ok p ->
+  forall (script : text) (c : cmd),
+  In (script, c) (HoistProgram.named_cmds (tops p)) ->
+  forall (name : token) (k : nat) (tk : token),
+  TextProgram.written_str switches parse_format T c name k tk ->
+  exists (l : text) (x : textdef),
+    nth_error (cargs c) k = Some l /\
+    In x (texts p) /\
+    xname x = l /\
+    xvalue x = terminate (tlit tk) [] /\
+    xtype x = [] /\
+    xglob x = false /\
+    (forall y : textdef, In y (texts p) -> xname y = l -> y = x) /\
+    length (filter (fun y : textdef => text_eqb (xname y) l) (texts p)) = 1 /\
+    (forall (optimize : bool) (mp : option text) (out : list Emitter.instr),
+     Emitter.emit_program_instrs optimize mp p = Emitter.Ok out -> exists X Y : list Emitter.instr, out = X ++ Emitter.emit_text mp x ++ Y) /\
+    (forall (optimize : bool) (out : list Emitter.instr),
+     Emitter.emit_program_instrs optimize None p = Emitter.Ok out ->
+     exists X Y : list Emitter.instr,
+       out =
+       X ++
+       (Emitter.ILabel l false
+        :: map
+             (fun line : text =>
+              Emitter.IData
+                (t
+                   (String.String (Ascii.Ascii true true false false true true true false)
+                      (String.String (Ascii.Ascii false false true false true true true false)
+                         (String.String (Ascii.Ascii false true false false true true true false)
+                            (String.String (Ascii.Ascii true false false true false true true false)
+                               (String.String (Ascii.Ascii false true true true false true true false)
+                                  (String.String (Ascii.Ascii true true true false false true true false) String.EmptyString))))))) line)
+             (Emitter.split_nl (terminate (tlit tk) []) [])) ++ Y).
+Proof. exact TextProgram.program_str_argument. Qed.
+Print Assumptions program_str_argument.
+
+Theorem program_typed_argument :
+  forall (autovars : list (text * autovar)) (switches : list (text * text)) (parse_format : toks -> res (token * text * text * toks)),
+  (forall (ts : toks) (tk : token) (v sty : text) (ts' : toks),
+   parse_format ts = Ok (tk, v, sty, ts') -> forall a : toks, Consume.advs a ts -> Consume.advs a ts') ->
+  forall (T : toks) (p : program),
+  parse_program autovars switches true parse_format T = Ok p ->
+  forall (script : text) (c : cmd),
+  In (script, c) (HoistProgram.named_cmds (tops p)) ->
+  forall (name : token) (k : nat) (ty tk : token),
+  TextProgram.written_typed switches parse_format T c name k ty tk ->
+  exists (l : text) (x : textdef),
+    nth_error (cargs c) k = Some l /\
+    In x (texts p) /\
+    xname x = l /\
+    xvalue x = terminate (tlit tk) (tlit ty) /\
+    xtype x = tlit ty /\
+    xglob x = false /\
+    (forall y : textdef, In y (texts p) -> xname y = l -> y = x) /\
+    length (filter (fun y : textdef => text_eqb (xname y) l) (texts p)) = 1 /\
+    (forall (optimize : bool) (mp : option text) (out : list Emitter.instr),
+     Emitter.emit_program_instrs optimize mp p = Emitter.Ok out -> exists X Y : list Emitter.instr, out = X ++ Emitter.emit_text mp x ++ Y).
+Proof. exact TextProgram.program_typed_argument. Qed.
+Print Assumptions program_typed_argument.
+
+Theorem program_format_argument :
+  forall (autovars : list (text * autovar)) (switches : list (text * text)) (parse_format : toks -> res (token * text * text * toks)),
+  (forall (ts : toks) (tk : token) (v sty : text) (ts' : toks),
+   parse_format ts = Ok (tk, v, sty, ts') -> forall a : toks, Consume.advs a ts -> Consume.advs a ts') ->
+  forall (T : toks) (p : program),
+  parse_program autovars switches true parse_format T = Ok p ->
+  forall (script : text) (c : cmd),
+  In (script, c) (HoistProgram.named_cmds (tops p)) ->
+  forall (name : token) (k : nat) (lt : list token) (clo tk : token) (v sty : text),
+  TextProgram.written_format switches parse_format T c name k lt clo tk v sty ->
+  (forall R : list token, R <> [] -> parse_format (lt ++ R) = Ok (tk, v, sty, clo :: R)) /\
+  (exists (l : text) (x : textdef),
+     nth_error (cargs c) k = Some l /\
+     In x (texts p) /\
+     xname x = l /\
+     xvalue x = terminate v sty /\
+     xtype x = sty /\
+     xglob x = false /\
+     (forall y : textdef, In y (texts p) -> xname y = l -> y = x) /\
+     length (filter (fun y : textdef => text_eqb (xname y) l) (texts p)) = 1 /\
+     (forall (optimize : bool) (mp : option text) (out : list Emitter.instr),
+      Emitter.emit_program_instrs optimize mp p = Emitter.Ok out -> exists X Y : list Emitter.instr, out = X ++ Emitter.emit_text mp x ++ Y)).
+Proof. exact TextProgram.program_format_argument. Qed.
+Print Assumptions program_format_argument.
+
+Theorem program_text_argument_name :
+  forall (autovars : list (text * autovar)) (switches : list (text * text)) (parse_format : toks -> res (token * text * text * toks)),
+  (forall (ts : toks) (tk : token) (v sty : text) (ts' : toks),
+   parse_format ts = Ok (tk, v, sty, ts') -> forall a : toks, Consume.advs a ts -> Consume.advs a ts') ->
+  forall (T : toks) (p : program),
+  parse_program autovars switches true parse_format T = Ok p ->
+  forall (script : text) (c : cmd),
+  In (script, c) (HoistProgram.named_cmds (tops p)) ->
+  forall (name : token) (k : nat) (tk : token) (v sty : text),
+  TextProgram.written_text switches parse_format T c name k tk v sty ->
+  exists (l : text) (st : pstate) (imps : list impdata) (pss : list (list patch)) (A : list imptext) (fo : imptext) 
+  (B P Q : list imptext),
+    nth_error (cargs c) k = Some l /\
+    parse_tops autovars switches true parse_format (5 * length T + 4) pstate0 T = Ok st /\
+    hoist_all imps hst0 = (ph st, pss) /\
+    Forall (parsed_imp autovars switches true parse_format) imps /\
+    new_texts [] (flat_map idT imps) = A ++ fo :: B /\
+    tkey fo = (terminate v sty, sty) /\
+    flat_map idT imps = P ++ fo :: Q /\
+    ~ In (terminate v sty, sty) (map tkey P) /\ l = text_label (itScript fo) (owned (itScript fo) (map itScript A)).
+Proof. exact TextProgram.program_text_argument_name. Qed.
+Print Assumptions program_text_argument_name.
+
+Theorem compiled_text_argument :
+  forall (hl hd hs : N -> bool) (autovars : list (text * autovar)) (switches : list (text * text)) (fc : Format.fontcfg) 
+    (cli_font : text) (cli_maxlen : Z) (s : text) (p : program),
+  parse_program autovars switches true (Format.parse_format fc cli_font cli_maxlen true) (lex hl hd hs s) = Ok p ->
+  forall (script : text) (c : cmd),
+  In (script, c) (HoistProgram.named_cmds (tops p)) ->
+  forall (name : token) (k : nat) (tk : token) (v sty : text),
+  TextProgram.written_text switches (Format.parse_format fc cli_font cli_maxlen true) (lex hl hd hs s) c name k tk v sty ->
+  cname c = tlit name /\
+  ctok c = name /\
+  (exists (l : text) (x : textdef),
+     nth_error (cargs c) k = Some l /\
+     In x (texts p) /\
+     xname x = l /\
+     xvalue x = terminate v sty /\
+     xtype x = sty /\
+     xglob x = false /\
+     (forall y : textdef, In y (texts p) -> xname y = l -> y = x) /\
+     length (filter (fun y : textdef => text_eqb (xname y) l) (texts p)) = 1 /\
+     (forall (optimize : bool) (mp : option text) (out : list Emitter.instr),
+      Emitter.emit_program_instrs optimize mp p = Emitter.Ok out ->
+      exists (a : list Emitter.instr) (n : nat) (pre post : list Emitter.instr),
+        out = a ++ Emitter.emit_texts mp (texts p) n /\
+        Emitter.emit_texts mp (texts p) n = pre ++ Emitter.emit_text mp x ++ post /\
+        filter (HoistProgram.is_label l) (Emitter.emit_texts mp (texts p) n) = [Emitter.ILabel l false]) /\
+     (forall (optimize : bool) (mp : option text) (out : list Emitter.instr),
+      Emitter.emit_program_instrs optimize mp p = Emitter.Ok out -> exists X Y : list Emitter.instr, out = X ++ Emitter.emit_text mp x ++ Y)).
+Proof. exact TextProgram.compiled_text_argument. Qed.
+Print Assumptions compiled_text_argument.
+
+Theorem compiled_text_argument_lines :
+  forall (hl hd hs : N -> bool) (autovars : list (text * autovar)) (switches : list (text * text)) (fc : Format.fontcfg) 
+    (cli_font : text) (cli_maxlen : Z) (s : text) (p : program),
+  parse_program autovars switches true (Format.parse_format fc cli_font cli_maxlen true) (lex hl hd hs s) = Ok p ->
+  forall (script : text) (c : cmd),
+  In (script, c) (HoistProgram.named_cmds (tops p)) ->
+  forall (name : token) (k : nat) (tk : token) (v sty : text),
+  TextProgram.written_text switches (Format.parse_format fc cli_font cli_maxlen true) (lex hl hd hs s) c name k tk v sty ->
+  exists l : text,
+    nth_error (cargs c) k = Some l /\
+    length (filter (fun y : textdef => text_eqb (xname y) l) (texts p)) = 1 /\
+    (forall (optimize : bool) (out : list Emitter.instr),
+     Emitter.emit_program_instrs optimize None p = Emitter.Ok out ->
+     exists X Y : list Emitter.instr,
+       out =
+       X ++
+       (Emitter.ILabel l false
+        :: map
+             (fun line : text =>
+              Emitter.IData
+                match sty with
+                | [] =>
+                    t
+                      (String.String (Ascii.Ascii true true false false true true true false)
+                         (String.String (Ascii.Ascii false false true false true true true false)
+                            (String.String (Ascii.Ascii false true false false true true true false)
+                               (String.String (Ascii.Ascii true false false true false true true false)
+                                  (String.String (Ascii.Ascii false true true true false true true false)
+                                     (String.String (Ascii.Ascii true true true false false true true false) String.EmptyString))))))
+                | _ :: _ => sty
+                end line) (Emitter.split_nl (terminate v sty) [])) ++ Y).
+Proof. exact TextProgram.compiled_text_argument_lines. Qed.
+Print Assumptions compiled_text_argument_lines.
+
+Theorem compiled_text_arguments_share :
+  forall (hl hd hs : N -> bool) (autovars : list (text * autovar)) (switches : list (text * text)) (fc : Format.fontcfg) 
+    (cli_font : text) (cli_maxlen : Z) (s : text) (p : program),
+  parse_program autovars switches true (Format.parse_format fc cli_font cli_maxlen true) (lex hl hd hs s) = Ok p ->
+  forall (s1 : text) (c1 : cmd) (s2 : text) (c2 : cmd),
+  In (s1, c1) (HoistProgram.named_cmds (tops p)) ->
+  In (s2, c2) (HoistProgram.named_cmds (tops p)) ->
+  forall (n1 : token) (k1 : nat) (tk1 : token) (v1 sty1 : text) (n2 : token) (k2 : nat) (tk2 : token) (v2 sty2 : text),
+  TextProgram.written_text switches (Format.parse_format fc cli_font cli_maxlen true) (lex hl hd hs s) c1 n1 k1 tk1 v1 sty1 ->
+  TextProgram.written_text switches (Format.parse_format fc cli_font cli_maxlen true) (lex hl hd hs s) c2 n2 k2 tk2 v2 sty2 ->
+  nth_error (cargs c1) k1 = nth_error (cargs c2) k2 <-> terminate v1 sty1 = terminate v2 sty2 /\ sty1 = sty2.
+Proof. exact TextProgram.compiled_text_arguments_share. Qed.
+Print Assumptions compiled_text_arguments_share.
+
+Theorem program_every_text_argument :
+  forall (autovars : list (text * autovar)) (switches : list (text * text)) (parse_format : toks -> res (token * text * text * toks)),
+  (forall (ts : toks) (tk : token) (v sty : text) (ts' : toks),
+   parse_format ts = Ok (tk, v, sty, ts') -> forall a : toks, Consume.advs a ts -> Consume.advs a ts') ->
+  forall (T : toks) (p : program),
+  parse_program autovars switches true parse_format T = Ok p ->
+  Consume.eof_ended T ->
+  forall (script : text) (c : cmd),
+  In (script, c) (HoistProgram.named_cmds (tops p)) ->
+  cargs c = [] \/
+  (exists (pre : list token) (name lp : token) (a : CmdArgs.arglist) (rp : token) (rest : list token),
+     T = pre ++ name :: lp :: CmdArgs.arg_tokens a ++ rp :: rest /\
+     cid c = length (name :: lp :: CmdArgs.arg_tokens a ++ rp :: rest) /\
+     ttype lp = LPAREN /\
+     ttype rp = RPAREN /\
+     CmdConverse.wf_args_at switches true parse_format a (rp :: rest) /\
+     CmdArgs.balanced (CmdArgs.flat a) /\
+     cname c = tlit name /\
+     ctok c = name /\
+     length (cargs c) = length (CmdArgs.strip_last_empty (CmdArgs.groups_of a)) /\
+     (forall (k : nat) (g1 : list CmdArgs.piece) (q : CmdArgs.piece) (g2 : list CmdArgs.piece) (tk : token) (v sty : text),
+      nth_error (CmdArgs.groups_of a) k = Some (g1 ++ q :: g2) ->
+      TextProgram.piece_text q = Some (tk, v, sty) ->
+      Forall (fun q' : CmdArgs.piece => TextProgram.is_text q' = false) g2 ->
+      Forall (fun q' : CmdArgs.piece => MovesProgram.is_moves q' = false) (g1 ++ q :: g2) ->
+      TextProgram.text_piece_compiled switches parse_format T p c k q v sty)).
+Proof. exact TextProgram.program_every_text_argument. Qed.
+Print Assumptions program_every_text_argument.
+
+Theorem compiled_every_text_argument :
+  forall (hl hd hs : N -> bool) (autovars : list (text * autovar)) (switches : list (text * text)) (fc : Format.fontcfg) 
+    (cli_font : text) (cli_maxlen : Z) (s : text) (p : program),
+  parse_program autovars switches true (Format.parse_format fc cli_font cli_maxlen true) (lex hl hd hs s) = Ok p ->
+  forall (script : text) (c : cmd),
+  In (script, c) (HoistProgram.named_cmds (tops p)) ->
+  cargs c = [] \/
+  (exists (pre : list token) (name lp : token) (a : CmdArgs.arglist) (rp : token) (rest : list token),
+     lex hl hd hs s = pre ++ name :: lp :: CmdArgs.arg_tokens a ++ rp :: rest /\
+     cid c = length (name :: lp :: CmdArgs.arg_tokens a ++ rp :: rest) /\
+     ttype lp = LPAREN /\
+     ttype rp = RPAREN /\
+     CmdConverse.wf_args_at switches true (Format.parse_format fc cli_font cli_maxlen true) a (rp :: rest) /\
+     CmdArgs.balanced (CmdArgs.flat a) /\
+     cname c = tlit name /\
+     ctok c = name /\
+     length (cargs c) = length (CmdArgs.strip_last_empty (CmdArgs.groups_of a)) /\
+     (forall (k : nat) (g1 : list CmdArgs.piece) (q : CmdArgs.piece) (g2 : list CmdArgs.piece) (tk : token) (v sty : text),
+      nth_error (CmdArgs.groups_of a) k = Some (g1 ++ q :: g2) ->
+      TextProgram.piece_text q = Some (tk, v, sty) ->
+      Forall (fun q' : CmdArgs.piece => TextProgram.is_text q' = false) g2 ->
+      Forall (fun q' : CmdArgs.piece => MovesProgram.is_moves q' = false) (g1 ++ q :: g2) ->
+      TextProgram.text_piece_compiled switches (Format.parse_format fc cli_font cli_maxlen true) (lex hl hd hs s) p c k q v sty)).
+Proof. exact TextProgram.compiled_every_text_argument. Qed.
+Print Assumptions compiled_every_text_argument.
+
